@@ -433,6 +433,7 @@ type Contracts struct {
 	GhostFields map[string]map[string]string // type key (short) -> field -> kind
 	Regexes  []*RegexSpec
 	Shared   []*SharedDecl
+	Restrict []*RestrictDecl
 }
 
 // Pred is a named spec macro: pred Name(p *T, x int) = expr
@@ -508,7 +509,7 @@ func (cs *Contracts) parseContractText(pkgPath, file string, text string, baseLi
 			items = append(items, item{baseLine + i, t})
 			continue
 		}
-		isHeader := first == "func" || first == "regex" || first == "shared" || first == "invariant" || first == "ghostvar" || first == "ghostfield" || first == "alias" || (first == "assume" && strings.HasPrefix(t, "assume func")) ||
+		isHeader := first == "func" || first == "regex" || first == "shared" || first == "restrict" || first == "invariant" || first == "ghostvar" || first == "ghostfield" || first == "alias" || (first == "assume" && strings.HasPrefix(t, "assume func")) ||
 			(first == "pure" && strings.HasPrefix(t, "pure func")) || (first == "assume" && strings.HasPrefix(t, "assume pure func"))
 		if isHeader || clauseKeywords[first] {
 			items = append(items, item{baseLine + i, t})
@@ -564,6 +565,32 @@ func (cs *Contracts) parseContractText(pkgPath, file string, text string, baseLi
 				why = uq
 			}
 			cs.Shared = append(cs.Shared, &SharedDecl{Var: f[1], Why: why, File: file, Line: it.line})
+			cur, curInv = nil, nil
+		case first == "restrict":
+			// restrict <Method> in <pkgshort> [tags] to f1, f2, ... "why"
+			rest := strings.TrimSpace(strings.TrimPrefix(t, "restrict"))
+			why := ""
+			if i := strings.Index(rest, "\""); i >= 0 {
+				if uq, err := strconv.Unquote(strings.TrimSpace(rest[i:])); err == nil {
+					why = uq
+				}
+				rest = strings.TrimSpace(rest[:i])
+			}
+			f := strings.Fields(rest)
+			if len(f) < 5 || f[1] != "in" {
+				errf("restrict <Method> in <pkg> [tags] to f1, f2 \"justification\"")
+				continue
+			}
+			rd := &RestrictDecl{Method: f[0], Pkg: f[2], Why: why, File: file, Line: it.line}
+			tail := strings.TrimSpace(rest[strings.Index(rest, f[2])+len(f[2]):])
+			rd.Tags, tail = parseTags(tail)
+			tail = strings.TrimSpace(strings.TrimPrefix(strings.TrimSpace(tail), "to"))
+			for _, n := range strings.Split(tail, ",") {
+				if n = strings.TrimSpace(n); n != "" {
+					rd.Allowed = append(rd.Allowed, n)
+				}
+			}
+			cs.Restrict = append(cs.Restrict, rd)
 			cur, curInv = nil, nil
 		case first == "regex":
 			// regex Var [tags] language "<pattern>" prefix-free nonempty
